@@ -797,7 +797,10 @@ func runPub(c *ctx, in Input) {
 	var te enq
 	te.complete = true
 	kind := "KPub"
-	expressible := mr.qok && hasTopic && wireSafeName(name) && rs.Framing != "badchunk" && rs.Method == "POST"
+	// (a 5xx from the HTTP side already fails the property for this input; the same payload
+	// is then not sent to the in-process TCP twin, where a panic would take the driver down
+	// before the case is written)
+	expressible := mr.qok && hasTopic && wireSafeName(name) && rs.Framing != "badchunk" && rs.Method == "POST" && obs.Status < 500
 	switch in.PubKind {
 	case "pub":
 		if ds, has := qval(mr.pairs, "defer"); has {
